@@ -676,6 +676,14 @@ func (w *world) selectConn(op *Op) *fsc {
 				sc = w.slots[c.slot].conn
 			}
 		}
+	case 8: // the pool connection of a channel whose refresh is in flight (Idx-th of them)
+		var l []*fsc
+		for _, sl := range w.slots {
+			if sl.alive && sl.repl != nil {
+				l = append(l, sl.conn)
+			}
+		}
+		sc = pick(l)
 	case 1:
 		sc = pick(repl)
 	case 2:
@@ -1544,7 +1552,11 @@ func (w *world) doDone(ci, outcome, rep int, replyKeys []int) {
 		w.fail("C07", "A.done.disabled", "%s: detection disabled but a completion created a connection", what)
 	}
 	if expect != (attempted == 1) || attempted > 1 {
-		w.fail("C07", "A.done.refresh", "%s: refresh expected=%v, observed NewSubConn ok=%d refused=%d (deadline calls=%d/%d, k=%d, since last response=%v, window=%dms*2^%d, refreshing=%v)",
+		refreshProp := "C07"
+		if sl.refreshing && attempted > 0 {
+			refreshProp = "C07|C03" // a second replacement for a channel whose refresh is in flight: more than "one extra connection per refreshing channel"
+		}
+		w.fail(refreshProp, "A.done.refresh", "%s: refresh expected=%v, observed NewSubConn ok=%d refused=%d (deadline calls=%d/%d, k=%d, since last response=%v, window=%dms*2^%d, refreshing=%v)",
 			what, expect, len(w.cc.created), w.cc.refused, sl.de, w.cfg.UdCalls, sl.k, now.Sub(sl.lastResp), w.cfg.UdMs, sl.k, sl.refreshing)
 	}
 	if len(w.cc.created) == 1 {
